@@ -152,6 +152,49 @@ async fn read_plan(recv: &mut RecvStream, buf_size: u16, exact: bool) -> Res<(Ve
     }
 }
 
+/// The same plans through the `tokio::io` traits the stream types implement.
+async fn write_plan_tokio<W: tokio::io::AsyncWrite + Unpin>(send: &mut W, data: &[u8], chunks: &[u16], write_all: bool) -> Res<()> {
+    use tokio::io::AsyncWriteExt;
+    let mut off = 0;
+    let mut k = 0;
+    while off < data.len() {
+        let n = if chunks.is_empty() { data.len() - off } else { (chunks[k % chunks.len()] as usize).min(data.len() - off) };
+        k += 1;
+        if write_all {
+            send.write_all(&data[off..off + n]).await.map_err(|e| format!("AsyncWriteExt::write_all: {e}"))?;
+            off += n;
+        } else {
+            let w = send.write(&data[off..off + n]).await.map_err(|e| format!("AsyncWriteExt::write: {e}"))?;
+            if w == 0 {
+                return Err("AsyncWriteExt::write returned 0".into());
+            }
+            off += w;
+        }
+    }
+    send.flush().await.map_err(|e| format!("flush: {e}"))?;
+    Ok(())
+}
+
+async fn read_plan_tokio<R: tokio::io::AsyncRead + Unpin>(recv: &mut R, buf_size: u16, exact: bool) -> Res<(Vec<u8>, usize)> {
+    use tokio::io::AsyncReadExt;
+    let mut out = Vec::new();
+    let mut buf = vec![0u8; buf_size.max(1) as usize];
+    let mut reads = 0;
+    if exact {
+        // read_to_end: the whole stream in one call
+        recv.read_to_end(&mut out).await.map_err(|e| format!("read_to_end: {e}"))?;
+        return Ok((out, 1));
+    }
+    loop {
+        reads += 1;
+        match recv.read(&mut buf).await {
+            Ok(0) => return Ok((out, reads)),
+            Ok(n) => out.extend_from_slice(&buf[..n]),
+            Err(e) => return Err(format!("AsyncReadExt::read: {e}")),
+        }
+    }
+}
+
 #[derive(Default)]
 struct Shared {
     /// stream id -> spec index, recorded by the opener
@@ -177,7 +220,8 @@ async fn receiver(conn: Connection, n_uni: usize, n_bi: usize, case: Arc<Case>, 
                     let plan = cs.streams[k % cs.streams.len()].clone();
                     inner.push(tokio::spawn(async move {
                         let id = r.id().into_u64();
-                        match read_plan(&mut r, plan.read_buf, plan.read_exact).await {
+                        let res = if plan.head % 2 == 1 { read_plan_tokio(&mut r, plan.read_buf, plan.read_exact).await } else { read_plan(&mut r, plan.read_buf, plan.read_exact).await };
+                        match res {
                             Ok(v) => {
                                 sh.lock().unwrap().received.insert(id, v);
                             }
@@ -262,18 +306,45 @@ async fn sender(conn: Connection, specs: Vec<(usize, StreamSpec)>, shared: Arc<M
         tasks.push(tokio::spawn(async move {
             let data = fwd_payload(i, &spec);
             let r: Res<()> = async {
+                // API path: inherent methods, the tokio::io traits of SendStream/RecvStream, or
+                // (bidirectional) the joined BiStream split with tokio::io::split
+                let api = spec.head % 3;
                 if spec.bidi {
                     let (mut s, mut r) = conn.open_bi().await.map_err(|e| format!("open_bi: {e}"))?.await.map_err(|e| format!("opening bi: {e}"))?;
                     sh.lock().unwrap().ids.insert(s.id().into_u64(), i);
-                    write_plan(&mut s, &data, &spec.chunks, spec.write_all).await?;
-                    s.finish().await.map_err(|e| format!("finish: {e}"))?;
-                    let (back, _) = read_plan(&mut r, spec.read_buf, false).await?;
-                    sh.lock().unwrap().reverse_received.insert(i, back);
+                    if api == 2 {
+                        use tokio::io::AsyncWriteExt;
+                        let bi = wtransport::stream::BiStream::join((s, r));
+                        let (mut rd, mut wr) = tokio::io::split(bi);
+                        write_plan_tokio(&mut wr, &data, &spec.chunks, spec.write_all).await?;
+                        wr.shutdown().await.map_err(|e| format!("shutdown: {e}"))?;
+                        let (back, _) = read_plan_tokio(&mut rd, spec.read_buf, spec.read_exact).await?;
+                        sh.lock().unwrap().reverse_received.insert(i, back);
+                    } else if api == 1 {
+                        use tokio::io::AsyncWriteExt;
+                        write_plan_tokio(&mut s, &data, &spec.chunks, spec.write_all).await?;
+                        s.shutdown().await.map_err(|e| format!("shutdown: {e}"))?;
+                        let (back, _) = read_plan_tokio(&mut r, spec.read_buf, false).await?;
+                        sh.lock().unwrap().reverse_received.insert(i, back);
+                    } else {
+                        write_plan(&mut s, &data, &spec.chunks, spec.write_all).await?;
+                        s.finish().await.map_err(|e| format!("finish: {e}"))?;
+                        let (back, _) = read_plan(&mut r, spec.read_buf, false).await?;
+                        sh.lock().unwrap().reverse_received.insert(i, back);
+                    }
                 } else {
                     let mut s = conn.open_uni().await.map_err(|e| format!("open_uni: {e}"))?.await.map_err(|e| format!("opening uni: {e}"))?;
                     sh.lock().unwrap().ids.insert(s.id().into_u64(), i);
-                    write_plan(&mut s, &data, &spec.chunks, spec.write_all).await?;
-                    s.finish().await.map_err(|e| format!("finish: {e}"))?;
+                    if api >= 1 {
+                        use tokio::io::AsyncWriteExt;
+                        write_plan_tokio(&mut s, &data, &spec.chunks, spec.write_all).await?;
+                        s.shutdown().await.map_err(|e| format!("shutdown: {e}"))?;
+                        // shutdown only queues the FIN: keep the stream until the peer acknowledged it
+                        let _ = s.stopped().await;
+                    } else {
+                        write_plan(&mut s, &data, &spec.chunks, spec.write_all).await?;
+                        s.finish().await.map_err(|e| format!("finish: {e}"))?;
+                    }
                 }
                 Ok(())
             }
